@@ -56,16 +56,23 @@ CCopyAssign(p) == {c \in {[op |-> "CopyAssign", dst |-> d, src |-> s] : d \in Wo
 CMoveAssign(p) == {c \in {[op |-> "MoveAssign", dst |-> d, src |-> s] : d \in Work \cap (Ss(p) \cup Ps(p)), s \in Work \cap (Ss(p) \cup Ps(p))} :
                      c.dst # c.src /\ SameType(p, c.dst, c.src)}
 CAssignLower(p) == {c \in {[op |-> "AssignLower", dst |-> d, src |-> s] : d \in Work \cap Ps(p), s \in LowP(p)} : p[c.src].o < p[c.dst].o}
-CInPlace(p) == {c \in {[op |-> o, dst |-> d, src |-> s] : o \in {"AddAssign", "SubAssign"}, d \in Work \cap Ps(p), s \in LowP(p)} :
-                  p[c.src].o <= p[c.dst].o}
+\* rv: an operand handed over as an rvalue (see Lifecycle!RvSlots); only slots of the working set are given away
+Rv1 == IF Sim THEN {0, 1} ELSE {0}
+Rv2 == IF Sim THEN {0, 1, 2} ELSE {0}
+RvFits(c, slot) == c.rv = 0 \/ slot \in Work
+CInPlace(p) == {c \in {[op |-> o, dst |-> d, src |-> s, rv |-> r] : o \in {"AddAssign", "SubAssign"}, d \in Work \cap Ps(p), s \in LowP(p), r \in Rv1} :
+                  p[c.src].o <= p[c.dst].o /\ (c.rv = 0 \/ (c.src \in Work /\ c.src # c.dst))}
 CScaleAssign(p) == {[op |-> o, dst |-> d, kk |-> k] : o \in {"ScaleAssign", "DivAssign"}, d \in Work \cap Ps(p), k \in Ks}
-CBin(p) == {c \in {[op |-> o, dst |-> d, a |-> a, b |-> b] : o \in {"Add", "Sub", "Mul"}, d \in Work, a \in LowP(p), b \in LowP(p)} :
-              c.op # "Mul" \/ p[c.a].o + p[c.b].o <= 6}
-CUn(p) == {[op |-> "Scale", dst |-> d, a |-> a, kk |-> k] : d \in Work, a \in Ps(p), k \in Ks}
-          \cup {[op |-> "Neg", dst |-> d, a |-> a] : d \in Work, a \in Ps(p)}
-CApply(p) == {c \in {[op |-> "Apply", dst |-> d, a |-> a, which |-> w] : d \in Work, a \in Ps(p), w \in {"Id", "Dx1", "Dx2", "X1"}} :
-                c.which # "X1" \/ p[c.a].o <= 5}
-CSupBin(p) == {[op |-> o, dst |-> d, a |-> a, b |-> b] : o \in {"Union", "Inter"}, d \in Work, a \in Ss(p), b \in Ss(p)}
+CBin(p) == {c \in {[op |-> o, dst |-> d, a |-> a, b |-> b, rv |-> r] : o \in {"Add", "Sub", "Mul"}, d \in Work, a \in LowP(p), b \in LowP(p), r \in Rv2} :
+              /\ (c.op # "Mul" \/ p[c.a].o + p[c.b].o <= 6)
+              /\ RvFits(c, IF c.rv = 1 THEN c.a ELSE c.b)}
+\* the scalar spellings: a * k, std::move(a) * k, k * std::move(a), std::move(a) / (1/k); BFS keeps std::move(a) * k
+CUn(p) == {c \in {[op |-> "Scale", dst |-> d, a |-> a, kk |-> k, rv |-> r] : d \in Work, a \in Ps(p), k \in Ks, r \in (IF Sim THEN 0..3 ELSE {0, 1})} : RvFits(c, c.a)}
+          \cup {c \in {[op |-> "Neg", dst |-> d, a |-> a, rv |-> r] : d \in Work, a \in Ps(p), r \in Rv1} : RvFits(c, c.a)}
+CApply(p) == {c \in {[op |-> "Apply", dst |-> d, a |-> a, which |-> w, rv |-> r] : d \in Work, a \in Ps(p), w \in {"Id", "Dx1", "Dx2", "X1"}, r \in Rv1} :
+                (c.which # "X1" \/ p[c.a].o <= 5) /\ RvFits(c, c.a)}
+CSupBin(p) == {c \in {[op |-> o, dst |-> d, a |-> a, b |-> b, rv |-> r] : o \in {"Union", "Inter"}, d \in Work, a \in Ss(p), b \in Ss(p), r \in Rv2} :
+                 RvFits(c, IF c.rv = 1 THEN c.a ELSE c.b)}
 CGet(p) == {[op |-> "GetSupport", dst |-> d, src |-> s] : d \in Work, s \in Ps(p)}
            \cup {[op |-> "GetGrid", dst |-> d, src |-> s] : d \in Work, s \in Live(p)}
 CDestroy(p) == {[op |-> "Destroy", dst |-> d] : d \in Work \cap Live(p)}
@@ -142,5 +149,6 @@ ModelStepOK ==
     IN IF MustRefuse(pre, c) THEN pool = pre
        ELSE /\ Refused(pre, c) = FALSE
             /\ TargetOK(pre, c, pool)
+            /\ RvOK(pre, c, pool)
             /\ Unchanged(pre, pool, Others(pre, Targets(c)))
 =============================================================================
